@@ -76,6 +76,16 @@ def main() -> int:
         for t in corpus_texts():
             cases.append({"src": "corpus", "has_tree": False, "tree": EMPTY_TREE, "text": core.cps(t), "alpha": corpus_alphabet(t), "maxlen": 3, "smax": 2})
         n_corpus = len(cases) - n_tree - n_tok
+    # distinct inputs only: one case per pattern text (the first one wins: generated trees before tokens / corpus)
+    seen_texts = set()
+    distinct = []
+    for c in cases:
+        t = tuple(c["text"])
+        if t not in seen_texts:
+            seen_texts.add(t)
+            distinct.append(c)
+    n_dropped = len(cases) - len(distinct)
+    cases = distinct
     cases_p = ck.work / "cases.json"
     core.write_json(cases_p, cases)
     obs_p = ck.work / "obs.json"
@@ -113,6 +123,7 @@ def main() -> int:
         "+ %d patterns recorded in dev/test_data; observed: %d parsed, %d positioned errors, %d escaped exceptions; non-trivial = pattern parsed, its rendering "
         "compiles in Python re and matches at least one of the case's strings (all strings of length <= maxlen over the boundary alphabet)" % (n_tree, n_tok, n_corpus, n_parsed, n_error, n_exc)
     )
+    ck.cov["rule"] += "; %d generated cases whose pattern text was already present were dropped before running (distinct texts only)" % n_dropped
     ck.cov["exhaustive"] = True
     pick = [obs[k] for k in (0, len(obs) // 3, len(obs) - 1)] if len(obs) >= 3 else obs
     ck.cov["samples"] = [{"src": o["src"], "pattern": core.from_cps(o["text"]), "outcome": o["outcome"], "rendering": core.from_cps(o["render_text"]), "reparse": o["reparse"], "alphabet": o["alpha"], "maxlen": o["maxlen"], "fully_matched_by_rendering": len(o["re_render_full"])} for o in pick]
@@ -121,6 +132,6 @@ def main() -> int:
         "Regex.tla semantics validated against Python re on every generated tree (S_OracleAgreesWithRe, same run)",
         "language equality is decided on all strings of length <= maxlen over the boundary alphabet of the case (small scope)",
     ]
-    if n_nontrivial == 0:
+    if n_nontrivial == 0 and not replay:
         raise core.MachineryFailure("vacuous run: no pattern was parsed, rendered and matched")
     return ck.finish()
